@@ -31,6 +31,9 @@ func Compile(input string, outputs map[string]string) error {
 		}
 		return fmt.Errorf("found %d syntax errors", len(binModel.SyntaxErrors))
 	}
+	if binModel.RootPacket == nil {
+		return fmt.Errorf("no root packet defined in %s", input)
+	}
 
 	generators := []struct {
 		lang string
